@@ -240,3 +240,32 @@ def check(cx):
     cx.include(c17, {"C17.3"}, "C01.10", "shared with C17.3: records are placed so that the log reads back in append order (block "
                "zero takes records only while it is the last block); a COMMIT read back before its BEGIN makes recovery undo an "
                "acknowledged transaction", floor=5)
+
+    # ---- C01.11 redo re-applies every logged operation of a committed transaction ----------------------------------------
+    r11 = cx.rule("C01.11", "MPR: in WalRecuperator::run_redo each redo handler call (redo_insert/update/delete/create/alter/drop) is decided only by "
+                  "the lookup of the record in its operation map (and by the loops over transactions and LSNs): no further condition "
+                  "skips a logged operation of a committed transaction (redo_update applies column differences, so an `older image is "
+                  "superseded` shortcut loses the columns only the skipped record changed)", floor=6)
+    fr = cx.guard(r11, "run_redo", p.fn, "io::recovery::WalRecuperator::run_redo")
+    if fr:
+        handlers = [c for c in fr.calls() if c.callee.startswith("io::recovery::WalRecuperator::redo_")]
+        if len(handlers) < 6:
+            cx.bad(r11, "handlers", fr.where(), "run_redo calls %d redo handlers (expected one per operation kind)" % len(handlers))
+        from axvlib.core import natural_loops as _nl1, enum_switches as _es1
+        opt_sw = {bi: src for bi, adt, m, oth, src in _es1(p, fr) if adt in ("std::option::Option", "std::ops::ControlFlow", "std::result::Result")}
+        for c in handlers:
+            extra = []
+            for bi, b in enumerate(fr.blocks):
+                t = b["term"]
+                if t["t"] != "switch" or not fr.dominates(bi, c.bb) or bi == c.bb:
+                    continue
+                arms = [x[1] for x in t["targets"]] + [t["otherwise"]]
+                if all(c.bb in fr.reachable(a, blocked={bi}) for a in arms):
+                    continue
+                if bi in opt_sw:
+                    continue            # Some/None of a map lookup, of Iterator::next, or the `?` of a previous handler
+                extra.append(bi)
+            name = c.callee.rsplit("::", 1)[-1]
+            cx.verdict(not extra, r11, name, c.where(), "decided by the map lookup only",
+                       "run_redo calls %s under an additional condition (bb%s): a logged operation of a committed transaction can be skipped "
+                       "during recovery and the acknowledged change is lost" % (name, extra))
